@@ -17,6 +17,7 @@ import EPV.Gen.RodModes3
 import EPV.Gen.RodModes4
 import EPV.Gen.RodRun2
 import EPV.Tactics
+import EPV.Lemmas.Bridge.HeatTac
 
 set_option linter.all false
 
@@ -29,19 +30,27 @@ noncomputable section
 /-- `(-1)**n` as the tracer writes it (real power) is `(-1)^n` for natural n -/
 theorem neg_one_rpow_nat (n : ℕ) : ((-1 : ℝ) ^ (n : ℝ)) = (-1) ^ n := Real.rpow_natCast _ _
 
+/-- Case analysis on the traced tests of the mode index and leaf-by-leaf identity, written against the simp sets only:
+no leaf numbers, no assumption on which of `n == 0` / `n != 0` the Python tests first or on how a formula is
+grouped (`heat_conj`, `Lemmas/Bridge/HeatTac.lean`).  Branches whose traced tests contradict `n = 0` / `n ≠ 0` are
+closed by `simp_all`; on the others the leaf definitions are unfolded and compared as field expressions. -/
+macro "modes_close" : tactic =>
+  `(tactic| ((try split_ifs) <;> (try simp only [epv_cond] at *) <;> first
+      | (exfalso; simp_all; done)
+      | (simp only [epv_leaf, neg_one_rpow_nat]; heat_conj)
+      | (simp only [epv_leaf, neg_one_rpow_nat, Nat.cast_zero, Real.rpow_zero, pow_zero]; heat_conj)))
+
 /-- modes_BC1: traced (k_n, A_n, B_n) = hand model, every n -/
 theorem modes_BC1_eq (p : RodP ℝ) (n : ℕ) :
     let q : RodModes1.P := ⟨p.L, p.TL, p.TR, p.α1, p.α2, p.γ1, p.γ2, n⟩
     RodModes1.kn q = knInt p.L n ∧ RodModes1.An q = zeroCoef n ∧ RodModes1.Bn q = bc1B p n := by
   intro q
   rw [knInt_real, zeroCoef_real, bc1B_real]
-  simp only [epv_tree, epv_cond, q]
+  simp only [epv_tree, q]
   by_cases hn : n = 0
   · subst hn
-    simp [RodModes1.L0.kn, RodModes1.L0.An, RodModes1.L0.Bn]
-  · have hn' : ((n : ℝ) = 0) = False := by simp [hn]
-    simp only [hn', if_false, hn, RodModes1.L1.kn, RodModes1.L1.An, RodModes1.L1.Bn, neg_one_rpow_nat]
-    refine ⟨by ring, trivial, by ring⟩
+    modes_close
+  · modes_close
 
 /-- modes_BC2 -/
 theorem modes_BC2_eq (p : RodP ℝ) (n : ℕ) :
@@ -49,13 +58,11 @@ theorem modes_BC2_eq (p : RodP ℝ) (n : ℕ) :
     RodModes2.kn q = knInt p.L n ∧ RodModes2.An q = bc2A p n ∧ RodModes2.Bn q = zeroCoef n := by
   intro q
   rw [knInt_real, zeroCoef_real, bc2A_real]
-  simp only [epv_tree, epv_cond, q]
+  simp only [epv_tree, q]
   by_cases hn : n = 0
   · subst hn
-    simp [RodModes2.L0.kn, RodModes2.L0.An, RodModes2.L0.Bn]
-  · have hn' : ((n : ℝ) = 0) = False := by simp [hn]
-    simp only [hn', if_false, hn, RodModes2.L1.kn, RodModes2.L1.An, RodModes2.L1.Bn, neg_one_rpow_nat]
-    refine ⟨by ring, by ring, trivial⟩
+    modes_close
+  · modes_close
 
 /-- modes_BC3 -/
 theorem modes_BC3_eq (p : RodP ℝ) (n : ℕ) :
@@ -63,8 +70,8 @@ theorem modes_BC3_eq (p : RodP ℝ) (n : ℕ) :
     RodModes3.kn q = knHalf p.L n ∧ RodModes3.An q = zeroCoef n ∧ RodModes3.Bn q = bc3B p n := by
   intro q
   rw [knHalf_real, zeroCoef_real, bc3B_real]
-  simp only [epv_tree, epv_leaf, q, neg_one_rpow_nat]
-  refine ⟨by ring, trivial, by ring⟩
+  simp only [epv_tree, q]
+  modes_close
 
 /-- modes_BC4 -/
 theorem modes_BC4_eq (p : RodP ℝ) (n : ℕ) :
@@ -72,8 +79,8 @@ theorem modes_BC4_eq (p : RodP ℝ) (n : ℕ) :
     RodModes4.kn q = knHalf p.L n ∧ RodModes4.An q = bc4A p n ∧ RodModes4.Bn q = zeroCoef n := by
   intro q
   rw [knHalf_real, zeroCoef_real, bc4A_real]
-  simp only [epv_tree, epv_leaf, q, neg_one_rpow_nat]
-  refine ⟨by ring, by ring, trivial⟩
+  simp only [epv_tree, q]
+  modes_close
 
 /-! ### `Rod1D._run` (Nsum = 2, symbolic coefficient arrays) is `rodSeries 2` with the static part of its case -/
 
@@ -101,21 +108,26 @@ theorem genStatic_real (p : RodP ℝ) (x : ℝ) :
 theorem run2_outcome (q : RodRun2.P) (x t : ℝ) :
     RodRun2.outcome q x t = .ok ↔
       ¬ (q.alpha1 = 0 ∧ q.beta1 ≠ 0 ∧ q.alpha2 = 0 ∧ q.beta2 ≠ 0 ∧ q.gamma1 / q.beta1 ≠ q.gamma2 / q.beta2) := by
+  -- `hs`: the flux test may be traced in either orientation (`F1 != F2` or `F2 != F1`)
+  have hs : (q.gamma2 / q.beta2 = q.gamma1 / q.beta1) ↔ (q.gamma1 / q.beta1 = q.gamma2 / q.beta2) := eq_comm
   simp only [epv_tree, epv_cond]
   by_cases h0 : q.alpha1 = 0 <;> by_cases h1 : q.beta1 = 0 <;> by_cases h2 : q.alpha2 = 0 <;> by_cases h3 : q.beta2 = 0 <;>
-    by_cases h4 : q.gamma1 / q.beta1 = q.gamma2 / q.beta2 <;> simp [h0, h1, h2, h3, h4]
+    by_cases h4 : q.gamma1 / q.beta1 = q.gamma2 / q.beta2 <;> simp [h0, h1, h2, h3, h4, hs]
 
 /-- and the only failure is a `ValueError` -/
 theorem run2_raises_only_valueError (q : RodRun2.P) (x t : ℝ) :
     RodRun2.outcome q x t = .ok ∨ RodRun2.outcome q x t = .raise "ValueError" := by
+  -- `hs`: the flux test may be traced in either orientation (`F1 != F2` or `F2 != F1`)
+  have hs : (q.gamma2 / q.beta2 = q.gamma1 / q.beta1) ↔ (q.gamma1 / q.beta1 = q.gamma2 / q.beta2) := eq_comm
   simp only [epv_tree, epv_cond]
   by_cases h0 : q.alpha1 = 0 <;> by_cases h1 : q.beta1 = 0 <;> by_cases h2 : q.alpha2 = 0 <;> by_cases h3 : q.beta2 = 0 <;>
-    by_cases h4 : q.gamma1 / q.beta1 = q.gamma2 / q.beta2 <;> simp [h0, h1, h2, h3, h4]
+    by_cases h4 : q.gamma1 / q.beta1 = q.gamma2 / q.beta2 <;> simp [h0, h1, h2, h3, h4, hs]
 
 /-- **the traced `_run` is the hand series** (N = 2), on every leaf -/
 theorem run2_eq_rodSeries (q : RodRun2.P) (x t : ℝ) (h : RodRun2.outcome q x t = .ok) :
     RodRun2.temperature q x t
       = rodSeries 2 q.kappa (runStatic q) (arr2 q.kn0 q.kn1) (arr2 q.An0 q.An1) (arr2 q.Bn0 q.Bn1) x t := by
+  have hs : (q.gamma2 / q.beta2 = q.gamma1 / q.beta1) ↔ (q.gamma1 / q.beta1 = q.gamma2 / q.beta2) := eq_comm
   rw [rodSeries_real]
   simp only [Finset.sum_range_succ, Finset.sum_range_zero, arr2, runStatic]
   simp only [epv_tree, epv_cond] at *
@@ -123,11 +135,10 @@ theorem run2_eq_rodSeries (q : RodRun2.P) (x t : ℝ) (h : RodRun2.outcome q x t
     simp only [h0, h1, h2, h3, if_true, if_false, ne_eq, not_true_eq_false, not_false_eq_true, and_self, and_true,
       true_and, and_false, false_and, one_ne_zero] at h ⊢ <;>
     first
-    | (simp only [bc1Static_real, bc3Static_real, bc4Static_real, genStatic_real, runP, epv_leaf, h0, h2]; ring1)
-    | (simp only [bc1Static_real, bc3Static_real, bc4Static_real, genStatic_real, runP, epv_leaf, h0, h2]; ring_nf; done)
+    | (simp only [bc1Static_real, bc3Static_real, bc4Static_real, genStatic_real, runP, epv_leaf, h0, h2]; heat_eq)
     | (by_cases h4 : q.gamma1 / q.beta1 = q.gamma2 / q.beta2 <;>
-        simp only [h4, if_true, if_false, reduceCtorEq] at h ⊢ <;>
-        (simp only [bc2Static_real, runP, epv_leaf, h0, h2]; first | ring1 | (ring_nf; done)))
+        simp only [h4, hs, if_true, if_false, reduceCtorEq] at h ⊢ <;>
+        (simp only [bc2Static_real, runP, epv_leaf, h0, h2]; heat_eq))
 
 end
 
